@@ -64,25 +64,6 @@ theorem actionDone_eff {s s' : St} {t q : Nat} (hs : step? s (.actionDone t q) =
     · cases hs
   · cases hs
 
-/-- a compound other than the one that moves keeps its invariants when descriptors outside it are rewritten -/
-theorem other_frame {l l' : List Tp} {c : Comp} (hci : CI l c) (hcs : CS l c)
-    (hsame : ∀ q : Nat, (q ∈ c.members ∨ q = c.self) → l'[q]? = l[q]?) : CI l' c ∧ CS l' c := by
-  constructor
-  · refine ⟨hci.le, ci_mem_frame hci ?_, hci.fin, ci_stamps_frame hci ?_⟩
-    · intro m hm y hy
-      exact ⟨y, by rw [hsame m (Or.inl hm)]; exact hy, Or.inl rfl, rfl⟩
-    · intro m hm tp' htp'
-      rw [hsame m (Or.inl hm)] at htp'
-      exact ⟨tp', htp', rfl, rfl⟩
-  · apply cs_frame hcs
-    · intro ts hts
-      obtain ⟨ts0, hts0, h0, he, hss, _⟩ := hcs.ex
-      rw [hts] at hts0; cases hts0
-      exact ⟨ts, by rw [hsame c.self (Or.inr rfl)]; exact hts, selfRel_refl h0 he hss⟩
-    · intro m hm tp' htp'
-      rw [hsame m (Or.inl hm)] at htp'
-      exact ⟨tp', htp', rfl⟩
-
 theorem self_ne_of_ne {comps : List Comp} (hn : (allSelfs comps).Nodup) {i j : Nat} {c c' : Comp}
     (hc : comps[i]? = some c) (hc' : comps[j]? = some c') (hij : i ≠ j) : c.self ≠ c'.self := by
   intro e
@@ -103,11 +84,328 @@ theorem allSelfs_set {comps : List Comp} {i : Nat} {c c' : Comp} (hc : comps[i]?
       simp only [allSelfs, List.set_cons_succ, List.map_cons] at this ⊢
       rw [this]
 
-theorem mem_set_comp {comps : List Comp} {i : Nat} {c0 c' x : Comp} (hc : comps[i]? = some c0) (hx : x ∈ comps.set i c') :
-    x = c' ∨ x ∈ comps := by
+theorem mem_set_comp {comps : List Comp} {i : Nat} {c' x : Comp} (hx : x ∈ comps.set i c') : x = c' ∨ x ∈ comps := by
   rcases List.mem_or_eq_of_mem_set hx with h | h
   · exact Or.inr h
   · exact Or.inl h
+
+theorem set_same {α} {l : List α} {i : Nat} {a : α} (h : l[i]? = some a) : l.set i a = l := by
+  obtain ⟨hi, ha⟩ := List.getElem?_eq_some_iff.1 h
+  rw [← ha]; exact List.set_getElem_self hi
+
+/-- static parts of the global invariant when one compound record changes its counters only -/
+theorem gi_static {cs : CSt} (h : GI cs) {c0 : Nat} {comp comp' : Comp} (hcomp : cs.comps[c0]? = some comp)
+    (hm : comp'.members = comp.members) (hs : comp'.self = comp.self) :
+    (allMembers (cs.comps.set c0 comp')).Nodup ∧ (allSelfs (cs.comps.set c0 comp')).Nodup ∧
+    ∀ c ∈ cs.comps.set c0 comp', c.self ∉ c.members := by
+  refine ⟨by rw [allMembers_set hcomp hm]; exact h.nodup, by rw [allSelfs_set hcomp hs]; exact h.snodup, ?_⟩
+  intro x hx
+  rcases mem_set_comp hx with rfl | hx
+  · rw [hs, hm]; exact h.sown comp (List.mem_of_getElem? hcomp)
+  · exact h.sown x hx
+
+theorem gi_startup {cs cs' : CSt} {t c0 : Nat} (h : GI cs) (hs : cstep? cs (.startup t c0) = some cs') : GI cs' := by
+  simp only [cstep?] at hs
+  split at hs
+  · rename_i comp hcomp
+    split at hs
+    · rename_i m0 hm0
+      split at hs
+      · rename_i hsub
+        split at hs
+        · rename_i s1 hs1
+          cases hst : step? s1 (.startupAdd t m0) with
+          | none => rw [hst] at hs; cases hs
+          | some s' =>
+            rw [hst] at hs; cases hs
+            obtain ⟨q, ts, hsu, hts, htsst, hset1, hsubs1⟩ := startupReady_eff hs1
+            have hq : q = comp.self := by rw [hsub] at hsu; cases hsu; rfl
+            subst hq
+            obtain ⟨tp, htp1, htps, hset⟩ := startupAdd_eff hst
+            have hi1 := inv_step h.inv hs1
+            have hS1 := sinv_step h.inv h.sinv hs1
+            have h0 := head?_get0 hm0
+            have hm0mem : m0 ∈ comp.members := List.mem_of_getElem? h0
+            have hcm : comp ∈ cs.comps := List.mem_of_getElem? hcomp
+            have hnself : comp.self ∉ comp.members := h.sown comp hcm
+            have hsm0 : m0 ≠ comp.self := fun e => hnself (e ▸ hm0mem)
+            have htp : cs.base.tps[m0]? = some tp := by
+              rw [hset1, get_set_tp _ _ _ _ _ hts, if_neg hsm0] at htp1; exact htp1
+            have hci0 := h.ci c0 comp hcomp
+            have hcs0 := h.cself c0 comp hcomp
+            obtain ⟨g1, g2, g3⟩ := gi_static h hcomp (comp' := { comp with pending := comp.members.length }) rfl rfl
+            -- every other compound: two context steps
+            have hoth : ∀ (i : Nat) (c : Comp), c0 ≠ i → cs.comps[i]? = some c → CI s'.tps c ∧ CS s'.tps c := by
+              intro i c hic hc
+              have hcmi : c ∈ cs.comps := List.mem_of_getElem? hc
+              have hsne : comp.self ≠ c.self := self_ne_of_ne h.snodup hcomp hc hic
+              have k1 := cics_step (c := c) h.inv h.sinv hs1 (h.ci i c hc) (h.cself i c hc) (nodup_members h.nodup hc) (h.sown c hcmi)
+                (by intro t' p e; cases e) (by intro t' p e; rcases e with e | e <;> cases e) (by intro t' e; cases e)
+                (by intro t' n e; cases e; rw [hsub]; intro e'; simp at e'; exact hsne e')
+                (by intro t' e; cases e) (by intro t' r q e; cases e)
+              exact cics_step (c := c) hi1 hS1 hst k1.1 k1.2 (nodup_members h.nodup hc) (h.sown c hcmi)
+                (by intro t' p e; cases e)
+                (by intro t' p e; rcases e with e | e
+                    · cases e
+                    · cases e; exact members_disjoint h.nodup hcomp hc hic hm0mem)
+                (by intro t' e; cases e) (by intro t' n e; cases e) (by intro t' e; cases e) (by intro t' r q e; cases e)
+            refine ⟨inv_step hi1 hst, sinv_step hi1 hS1 hst, g1, g2, g3, ?_, ?_⟩
+            · intro i c hc
+              show CI s'.tps c
+              by_cases hic : c0 = i
+              · subst hic
+                rw [List.getElem?_set_self (List.getElem?_eq_some_iff.1 hcomp).1] at hc
+                cases hc
+                rw [hset, hset1]
+                have hci1 : CI (cs.base.tps.set comp.self { ts with ready := true, pend := ts.pend + comp.members.length }) comp :=
+                  ci_set_frame hci0 hts rfl (Or.inl hnself)
+                exact ci_startup hci1 (nodup_members h.nodup hcomp) h0 (by rw [← hset1]; exact htp1) htps ⟨rfl, rfl, rfl, rfl⟩
+              · rw [List.getElem?_set_ne hic] at hc
+                exact (hoth i c hic hc).1
+            · intro i c hc
+              show CS s'.tps c
+              by_cases hic : c0 = i
+              · subst hic
+                rw [List.getElem?_set_self (List.getElem?_eq_some_iff.1 hcomp).1] at hc
+                cases hc
+                obtain ⟨ts0, hts0, a0, ae, ass, ap, a1, a2, a3, a4, a5⟩ := hcs0.ex
+                rw [hts] at hts0; cases hts0
+                obtain ⟨y, hy, _, b2, _, b4⟩ := hci0.mem 0 m0 h0
+                rw [htp] at hy; cases hy
+                have hc0 : comp.completed = 0 := by
+                  rcases Nat.eq_zero_or_pos comp.completed with e | e
+                  · exact e
+                  · rcases b2 e with e' | e' | e' <;> rw [htps] at e' <;> cases e'
+                have hp0 : comp.pending = 0 := ((b4 hc0.symm).2.1 htps).2
+                have hlook : s'.tps[comp.self]? = some { ts with ready := true, pend := ts.pend + comp.members.length } := by
+                  rw [hset, get_set_tp _ _ _ _ _ htp1, if_neg (fun e => hsm0 e.symm), hset1]
+                  exact List.getElem?_set_self (List.getElem?_eq_some_iff.1 hts).1
+                refine ⟨hcs0.ne, _, hlook, a0, ae, Or.inr (Or.inr (Or.inl htsst)), ?_, fun _ => ⟨htsst, rfl⟩, ?_, ?_, ?_, ?_⟩
+                · simp only []; rw [hp0] at ap; push_cast; omega
+                · intro e; simp only [] at e; have := hcs0.ne; omega
+                · intro _; exact a3 (by have := hcs0.ne; omega)
+                · intro hcb; simp only [] at hcb
+                  exact absurd (a3 (by have := hcs0.ne; omega)).1 hcb
+                · intro m tm hm htm hne
+                  simp only [] at hm
+                  rw [hset, get_set_tp _ _ _ _ _ htp1] at htm
+                  by_cases hmm : m = m0
+                  · rw [if_pos hmm] at htm; cases htm
+                    simp only [] at hne ⊢
+                    exact a5 m0 tp hm0mem htp hne
+                  · rw [if_neg hmm, hset1, get_set_tp _ _ _ _ _ hts,
+                        if_neg (fun (e : m = comp.self) => hnself (e ▸ hm))] at htm
+                    exact a5 m tm hm htm hne
+              · rw [List.getElem?_set_ne hic] at hc
+                exact (hoth i c hic hc).2
+        · cases hs
+      · cases hs
+    · cases hs
+  · cases hs
+
+/-- the member at position `completed` of compound c0 has completed (its descriptor x1 is in or past its callback):
+    the compound's bookkeeping — completed += 1, release of one pending action of the compound object (the last
+    release detects the compound's own termination, nested), and the enabling of the next member if some remain -/
+theorem gi_advance {cs : CSt} {s1 s2 : St} {t c0 m : Nat} {comp : Comp} {tp x1 : Tp} (h : GI cs)
+    (hcomp : cs.comps[c0]? = some comp) (hk : comp.members[comp.completed]? = some m)
+    (htp : cs.base.tps[m]? = some tp) (hnn : tp.st ≠ .notAdded)
+    (hx1 : (x1.st = .inCb ∨ x1.st = .inCbN) ∧ x1.addAt = tp.addAt ∧ x1.early = tp.early)
+    (hset1 : s1.tps = cs.base.tps.set m x1) (hi1 : Inv s1) (hS1 : SInv s1) (hclk1 : cs.base.clock ≤ s1.clock)
+    (hx1cb : x1.cbAt ≠ 0 ∧ x1.cbAt < s1.clock)
+    (hoth1 : ∀ (i : Nat) (c : Comp), c0 ≠ i → cs.comps[i]? = some c → CI s1.tps c ∧ CS s1.tps c)
+    (hs2 : step? s1 (.actionDone t comp.self) = some s2) (cs' : CSt)
+    (hfin : (comp.pending - 1 > 0 ∧ ∃ (nx : Nat) (s3 : St), comp.members[comp.completed + 1]? = some nx ∧
+              step? s2 (.addCall t nx) = some s3 ∧
+              cs' = { base := s3, comps := cs.comps.set c0 { comp with completed := comp.completed + 1, pending := comp.pending - 1 } }) ∨
+            (¬ comp.pending - 1 > 0 ∧
+              cs' = { base := s2, comps := cs.comps.set c0 { comp with completed := comp.completed + 1, pending := comp.pending - 1 } })) :
+    GI cs' := by
+  obtain ⟨ts1, hts1, _, hpos, hclk2, hbr⟩ := actionDone_eff hs2
+  have hi2 := inv_step hi1 hs2
+  have hS2 := sinv_step hi1 hS1 hs2
+  have hci0 := h.ci c0 comp hcomp
+  have hcs0 := h.cself c0 comp hcomp
+  have hnd := nodup_members h.nodup hcomp
+  have hcm : comp ∈ cs.comps := List.mem_of_getElem? hcomp
+  have hnself : comp.self ∉ comp.members := h.sown comp hcm
+  have hmmem : m ∈ comp.members := List.mem_of_getElem? hk
+  have hms : m ≠ comp.self := fun e => hnself (e ▸ hmmem)
+  obtain ⟨ts, hts, a0, ae, ass, ap, a1, a2, a3, a4, a5⟩ := hcs0.ex
+  have hts1' : ts1 = ts := by
+    rw [hset1, get_set_tp _ _ _ _ _ htp, if_neg (fun e => hms e.symm), hts] at hts1; cases hts1; rfl
+  subst hts1'
+  have hts1s : s1.tps[comp.self]? = some ts1 := hts1
+  have hlt : comp.completed < comp.members.length := (List.getElem?_eq_some_iff.1 hk).1
+  have hpend : comp.pending = (comp.members.length : Int) - comp.completed := by
+    obtain ⟨y, hy, _, _, _, b4⟩ := hci0.mem _ m hk
+    rw [htp] at hy; cases hy
+    exact (b4 rfl).2.2 hnn
+  have hcnt := hi1.taskCnt comp.self ts1 hts1s
+  have hst0 : ts1.started = 0 ∧ ts1.ended = 0 := by omega
+  have hpp : (0 : Int) < comp.pending := by omega
+  obtain ⟨hadded, hready⟩ := a1 hpp
+  have hclk := h.sinv.clk
+  have hcomm : ∀ y : Tp, (cs.base.tps.set m x1).set comp.self y = (cs.base.tps.set comp.self y).set m x1 :=
+    fun y => List.set_comm _ _ hms
+  obtain ⟨g1, g2, g3⟩ := gi_static h hcomp
+    (comp' := { comp with completed := comp.completed + 1, pending := comp.pending - 1 }) rfl rfl
+  -- other compounds: the release on the compound object (it may be a member of one of them: nested termination)
+  have hoth2 : ∀ (i : Nat) (c : Comp), c0 ≠ i → cs.comps[i]? = some c → CI s2.tps c ∧ CS s2.tps c := by
+    intro i c hic hc
+    have hcmi : c ∈ cs.comps := List.mem_of_getElem? hc
+    have hsne : comp.self ≠ c.self := self_ne_of_ne h.snodup hcomp hc hic
+    obtain ⟨k1, k2⟩ := hoth1 i c hic hc
+    exact cics_step (c := c) hi1 hS1 hs2 k1 k2 (nodup_members h.nodup hc) (h.sown c hcmi)
+      (by intro t' p e; cases e) (by intro t' p e; rcases e with e | e <;> cases e)
+      (by intro t' e; injection e with _ e2; exact hsne e2) (by intro t' n e; cases e) (by intro t' e; cases e)
+      (by intro t' r q e; cases e)
+  rcases hfin with ⟨hp, nx, s3, hnx, hs3, rfl⟩ | ⟨hp, rfl⟩
+  · -- some remain
+    obtain ⟨tn, htn, htnst, hset3⟩ := addCall_eff hs3
+    have hnxmem : nx ∈ comp.members := List.mem_of_getElem? hnx
+    have hnxs : nx ≠ comp.self := fun e => hnself (e ▸ hnxmem)
+    have hset2 : s2.tps = s1.tps.set comp.self { ts1 with pend := ts1.pend - 1 } := by
+      rcases hbr with ⟨_, hp1, _, _, _⟩ | ⟨_, e⟩
+      · omega
+      · exact e
+    have hl3 : s3.tps = ((cs.base.tps.set comp.self { ts1 with pend := ts1.pend - 1 }).set m x1).set nx { tn with st := .adding, by_ := t } := by
+      rw [hset3, hset2, hset1, hcomm]
+    have hoth3 : ∀ (i : Nat) (c : Comp), c0 ≠ i → cs.comps[i]? = some c → CI s3.tps c ∧ CS s3.tps c := by
+      intro i c hic hc
+      have hcmi : c ∈ cs.comps := List.mem_of_getElem? hc
+      obtain ⟨k1, k2⟩ := hoth2 i c hic hc
+      exact cics_step (c := c) hi2 hS2 hs3 k1 k2 (nodup_members h.nodup hc) (h.sown c hcmi)
+        (by intro t' p e; cases e)
+        (by intro t' p e; rcases e with e | e
+            · cases e; exact members_disjoint h.nodup hcomp hc hic hnxmem
+            · cases e)
+        (by intro t' e; cases e) (by intro t' n e; cases e) (by intro t' e; cases e) (by intro t' r q e; cases e)
+    refine ⟨inv_step hi2 hs3, sinv_step hi2 hS2 hs3, g1, g2, g3, ?_, ?_⟩
+    · intro i c hc
+      show CI s3.tps c
+      by_cases hic : c0 = i
+      · subst hic
+        rw [List.getElem?_set_self (List.getElem?_eq_some_iff.1 hcomp).1] at hc
+        cases hc
+        rw [hl3]
+        have hci1 : CI (cs.base.tps.set comp.self { ts1 with pend := ts1.pend - 1 }) comp :=
+          ci_set_frame hci0 hts rfl (Or.inl hnself)
+        have hS0 : ∀ y ∈ cs.base.tps.set comp.self { ts1 with pend := ts1.pend - 1 }, tpOK cs.base.clock y := by
+          intro y hy
+          rcases List.mem_or_eq_of_mem_set hy with hy | hy
+          · exact h.sinv.tpok y hy
+          · subst hy
+            have := h.sinv.tpok ts1 (List.mem_of_getElem? hts)
+            simpa only [tpOK] using this
+        have htp0 : (cs.base.tps.set comp.self { ts1 with pend := ts1.pend - 1 })[m]? = some tp := by
+          rw [get_set_tp _ _ _ _ _ hts, if_neg hms]; exact htp
+        refine ci_memberCb (x1 := x1) hci1 hnd hS0 hk htp0 hnn hx1 _
+          (Or.inr ⟨hp, nx, tn, { tn with st := .adding, by_ := t }, hnx, ?_, htnst, rfl, rfl, rfl, rfl, rfl⟩)
+        rw [← hcomm, ← hset1, ← hset2]; exact htn
+      · rw [List.getElem?_set_ne hic] at hc
+        exact (hoth3 i c hic hc).1
+    · intro i c hc
+      show CS s3.tps c
+      by_cases hic : c0 = i
+      · subst hic
+        rw [List.getElem?_set_self (List.getElem?_eq_some_iff.1 hcomp).1] at hc
+        cases hc
+        have hnxl : comp.completed + 1 < comp.members.length := (List.getElem?_eq_some_iff.1 hnx).1
+        have hlook : s3.tps[comp.self]? = some { ts1 with pend := ts1.pend - 1 } := by
+          rw [hset3, get_set_tp _ _ _ _ _ htn, if_neg (fun e => hnxs e.symm), hset2]
+          exact List.getElem?_set_self (List.getElem?_eq_some_iff.1 hts1s).1
+        refine ⟨hcs0.ne, _, hlook, a0, ae, ass, ?_, fun _ => ⟨hadded, hready⟩, ?_, ?_, ?_, ?_⟩
+        · simp only []; omega
+        · intro e; simp only [] at e; omega
+        · intro _; exact a3 hlt
+        · intro hcb; simp only [] at hcb; exact absurd (a3 hlt).1 hcb
+        · intro mm tm hmm htm hne
+          simp only [] at hmm ⊢
+          rw [hl3, get_set_tp _ _ _ _ _ (by rw [← hcomm, ← hset1, ← hset2]; exact htn)] at htm
+          by_cases e1 : mm = nx
+          · rw [if_pos e1] at htm; cases htm
+            simp only [] at hne
+            exact a5 nx tn hnxmem (by
+              rw [hset2, get_set_tp _ _ _ _ _ hts1s, if_neg hnxs, hset1, get_set_tp _ _ _ _ _ htp] at htn
+              by_cases e2 : nx = m
+              · rw [if_pos e2] at htn; cases htn
+                exact absurd htnst (by rcases hx1.1 with e | e <;> rw [e] <;> simp)
+              · rw [if_neg e2] at htn; exact htn) hne
+          · have hmmtp : (cs.base.tps.set comp.self { ts1 with pend := ts1.pend - 1 })[m]? = some tp := by
+              rw [get_set_tp _ _ _ _ _ hts, if_neg hms]; exact htp
+            rw [if_neg e1, get_set_tp _ _ _ _ _ hmmtp] at htm
+            by_cases e2 : mm = m
+            · rw [if_pos e2] at htm; cases htm
+              rw [hx1.2.1] at hne ⊢
+              exact a5 m tp hmmem htp hne
+            · rw [if_neg e2, get_set_tp _ _ _ _ _ hts, if_neg (fun (e : mm = comp.self) => hnself (e ▸ hmm))] at htm
+              exact a5 mm tm hmm htm hne
+      · rw [List.getElem?_set_ne hic] at hc
+        exact (hoth3 i c hic hc).2
+  · -- the last member: the compound terminates, nested in this callback
+    have hn : comp.completed + 1 = comp.members.length := by omega
+    have hp1 : ts1.pend = 1 := by omega
+    have hset2 : s2.tps = s1.tps.set comp.self { ts1 with pend := 0, st := .inCbN, cbs := ts1.cbs + 1, cbAt := s1.clock, by_ := t } := by
+      rcases hbr with ⟨_, _, _, _, e⟩ | ⟨hno, _⟩
+      · exact e
+      · exact absurd ⟨hready, hp1, by omega, by omega⟩ hno
+    have hl2 : s2.tps = (cs.base.tps.set comp.self { ts1 with pend := 0, st := .inCbN, cbs := ts1.cbs + 1, cbAt := s1.clock, by_ := t }).set m x1 := by
+      rw [hset2, hset1, hcomm]
+    have hlookF : s2.tps[comp.self]? = some { ts1 with pend := 0, st := .inCbN, cbs := ts1.cbs + 1, cbAt := s1.clock, by_ := t } := by
+      rw [hset2]; exact List.getElem?_set_self (List.getElem?_eq_some_iff.1 hts1s).1
+    refine ⟨hi2, hS2, g1, g2, g3, ?_, ?_⟩
+    · intro i c hc
+      show CI s2.tps c
+      by_cases hic : c0 = i
+      · subst hic
+        rw [List.getElem?_set_self (List.getElem?_eq_some_iff.1 hcomp).1] at hc
+        cases hc
+        rw [hl2]
+        have hci1 : CI (cs.base.tps.set comp.self { ts1 with pend := 0, st := .inCbN, cbs := ts1.cbs + 1, cbAt := s1.clock, by_ := t }) comp :=
+          ci_set_frame hci0 hts rfl (Or.inl hnself)
+        have hS0 : ∀ y ∈ cs.base.tps.set comp.self { ts1 with pend := 0, st := .inCbN, cbs := ts1.cbs + 1, cbAt := s1.clock, by_ := t },
+            tpOK s2.clock y := by
+          intro y hy
+          rcases List.mem_or_eq_of_mem_set hy with hy | hy
+          · exact tpOK_mono (h.sinv.tpok y hy) (by omega)
+          · subst hy; exact hS2.tpok _ (List.mem_of_getElem? hlookF)
+        have htp0 : (cs.base.tps.set comp.self { ts1 with pend := 0, st := .inCbN, cbs := ts1.cbs + 1, cbAt := s1.clock, by_ := t })[m]? = some tp := by
+          rw [get_set_tp _ _ _ _ _ hts, if_neg hms]; exact htp
+        exact ci_memberCb (x1 := x1) hci1 hnd hS0 hk htp0 hnn hx1 _ (Or.inl ⟨by omega, rfl⟩)
+      · rw [List.getElem?_set_ne hic] at hc
+        exact (hoth2 i c hic hc).1
+    · intro i c hc
+      show CS s2.tps c
+      by_cases hic : c0 = i
+      · subst hic
+        rw [List.getElem?_set_self (List.getElem?_eq_some_iff.1 hcomp).1] at hc
+        cases hc
+        refine ⟨hcs0.ne, _, hlookF, a0, ae, Or.inr (Or.inr (Or.inr (Or.inl rfl))), ?_, ?_, fun _ => Or.inl rfl, ?_, ?_, ?_⟩
+        · simp only []; omega
+        · intro e; simp only [] at e; omega
+        · intro e; simp only [] at e; omega
+        · intro _ ml tl hml htl
+          simp only [] at hml
+          have hidx : comp.members.length - 1 = comp.completed := by omega
+          rw [hidx, hk] at hml; cases hml
+          rw [hl2, List.getElem?_set_self (by
+            rw [List.length_set]; exact (List.getElem?_eq_some_iff.1 htp).1)] at htl
+          cases htl
+          simp only []
+          exact hx1cb
+        · intro mm tm hmm htm hne
+          simp only [] at hmm ⊢
+          have hmmtp : (cs.base.tps.set comp.self { ts1 with pend := 0, st := .inCbN, cbs := ts1.cbs + 1, cbAt := s1.clock, by_ := t })[m]? = some tp := by
+            rw [get_set_tp _ _ _ _ _ hts, if_neg hms]; exact htp
+          rw [hl2, get_set_tp _ _ _ _ _ hmmtp] at htm
+          by_cases e2 : mm = m
+          · rw [if_pos e2] at htm; cases htm
+            rw [hx1.2.1] at hne ⊢
+            exact a5 m tp hmmem htp hne
+          · rw [if_neg e2, get_set_tp _ _ _ _ _ hts, if_neg (fun (e : mm = comp.self) => hnself (e ▸ hmm))] at htm
+            exact a5 mm tm hmm htm hne
+      · rw [List.getElem?_set_ne hic] at hc
+        exact (hoth2 i c hic hc).2
 
 theorem gi_memberCb {cs cs' : CSt} {t c0 m : Nat} (h : GI cs) (hs : cstep? cs (.memberCb t c0 m) = some cs') : GI cs' := by
   simp only [cstep?] at hs
@@ -115,225 +413,77 @@ theorem gi_memberCb {cs cs' : CSt} {t c0 m : Nat} (h : GI cs) (hs : cstep? cs (.
   · rename_i comp hcomp
     split at hs
     · rename_i hmem
-      have hmmem : m ∈ comp.members := by simpa using hmem
+      simp only [Bool.and_eq_true, Bool.not_eq_true', List.contains_eq_mem, decide_eq_true_eq, decide_eq_false_iff_not] at hmem
+      obtain ⟨hmmem, hmleaf⟩ := hmem
       split at hs
       · rename_i s1 hs1
         split at hs
         · rename_i s2 hs2
           obtain ⟨tp, htp, htpst, hset1, hclk1⟩ := detect_eff hs1
-          obtain ⟨ts1, hts1, _, hpos, hclk2, hbr⟩ := actionDone_eff hs2
           have hi1 := inv_step h.inv hs1
           have hS1 := sinv_step h.inv h.sinv hs1
-          have hi2 := inv_step hi1 hs2
-          have hS2 := sinv_step hi1 hS1 hs2
-          have hci0 := h.ci c0 comp hcomp
-          have hcs0 := h.cself c0 comp hcomp
-          have hnd := nodup_members h.nodup hcomp
-          have hsdis : comp.self ∉ allMembers cs.comps := h.sdisj comp (List.mem_of_getElem? hcomp)
-          have hnself : comp.self ∉ comp.members := fun hm => hsdis (mem_allMembers hcomp hm)
-          have hms : m ≠ comp.self := fun e => hnself (e ▸ hmmem)
-          -- the descriptor of the compound object is untouched by the detection of m
-          obtain ⟨ts, hts, a0, ae, ass, ap, a1, a2, a3, a4⟩ := hcs0.ex
-          have hts1' : ts1 = ts := by
-            rw [hset1, get_set_tp _ _ _ _ _ htp, if_neg (fun e => hms e.symm), hts] at hts1; cases hts1; rfl
-          subst hts1'
-          have hts1s : s1.tps[comp.self]? = some ts1 := hts1
           obtain ⟨kk, hkl, hkget⟩ := List.getElem_of_mem hmmem
-          have hk : comp.members[kk]? = some m := by rw [List.getElem?_eq_getElem hkl, hkget]
-          obtain ⟨hkc, hpend, hlt⟩ := added_pos hci0 hk htp htpst
-          have hcnt := hi1.taskCnt comp.self ts1 hts1s
-          have hst0 : ts1.started = 0 ∧ ts1.ended = 0 := by omega
-          have hpp : (0 : Int) < comp.pending := by omega
-          obtain ⟨hadded, hready⟩ := a1 hpp
+          have hk0 : comp.members[kk]? = some m := by rw [List.getElem?_eq_getElem hkl, hkget]
+          obtain ⟨hkc, _, _⟩ := added_pos (h.ci c0 comp hcomp) hk0 htp htpst
+          have hk : comp.members[comp.completed]? = some m := hkc ▸ hk0
           have hclk := h.sinv.clk
-          have hcomm : ∀ y : Tp, (cs.base.tps.set m { tp with st := .inCb, cbs := tp.cbs + 1, cbAt := cs.base.clock, by_ := t }).set comp.self y =
-              (cs.base.tps.set comp.self y).set m { tp with st := .inCb, cbs := tp.cbs + 1, cbAt := cs.base.clock, by_ := t } :=
-            fun y => List.set_comm _ _ hms
+          have hoth1 : ∀ (i : Nat) (c : Comp), c0 ≠ i → cs.comps[i]? = some c → CI s1.tps c ∧ CS s1.tps c := by
+            intro i c hic hc
+            have hcmi : c ∈ cs.comps := List.mem_of_getElem? hc
+            exact cics_step (c := c) h.inv h.sinv hs1 (h.ci i c hc) (h.cself i c hc) (nodup_members h.nodup hc) (h.sown c hcmi)
+              (by intro t' p e; cases e
+                  exact ⟨members_disjoint h.nodup hcomp hc hic hmmem, fun e => hmleaf (e ▸ mem_allSelfs hc)⟩)
+              (by intro t' p e; rcases e with e | e <;> cases e) (by intro t' e; cases e) (by intro t' n e; cases e)
+              (by intro t' e; cases e) (by intro t' r q e; cases e)
+          refine gi_advance (x1 := { tp with st := .inCb, cbs := tp.cbs + 1, cbAt := cs.base.clock, by_ := t }) h hcomp hk htp
+            (by rw [htpst]; simp) ⟨Or.inl rfl, rfl, rfl⟩ hset1 hi1 hS1 (by omega) ⟨by simp only []; omega, by simp only []; omega⟩ hoth1 hs2 cs' ?_
           split at hs
           · rename_i hp
-            -- some remain
             split at hs
             · rename_i nx hnx
               cases hs3 : step? s2 (.addCall t nx) with
               | none => rw [hs3] at hs; cases hs
-              | some s3 =>
-                rw [hs3] at hs; cases hs
-                obtain ⟨tn, htn, htnst, hset3⟩ := addCall_eff hs3
-                have hnxmem : nx ∈ comp.members := List.mem_of_getElem? hnx
-                have hnxs : nx ≠ comp.self := fun e => hnself (e ▸ hnxmem)
-                have hset2 : s2.tps = s1.tps.set comp.self { ts1 with pend := ts1.pend - 1 } := by
-                  rcases hbr with ⟨_, hp1, _, _, _⟩ | ⟨_, e⟩
-                  · omega
-                  · exact e
-                have hl3 : s3.tps = ((cs.base.tps.set comp.self { ts1 with pend := ts1.pend - 1 }).set m
-                    { tp with st := .inCb, cbs := tp.cbs + 1, cbAt := cs.base.clock, by_ := t }).set nx { tn with st := .adding, by_ := t } := by
-                  rw [hset3, hset2, hset1, hcomm]
-                refine ⟨inv_step hi2 hs3, sinv_step hi2 hS2 hs3,
-                        by show (allMembers (cs.comps.set c0 _)).Nodup; rw [allMembers_set hcomp]; exact h.nodup; rfl,
-                        by show (allSelfs (cs.comps.set c0 _)).Nodup; rw [allSelfs_set hcomp]; exact h.snodup; rfl, ?_, ?_, ?_⟩
-                · intro x hx
-                  show x.self ∉ allMembers (cs.comps.set c0 _)
-                  rw [allMembers_set hcomp]
-                  · rcases mem_set_comp hcomp hx with rfl | hx
-                    · exact hsdis
-                    · exact h.sdisj x hx
-                  · rfl
-                · intro i c hc
-                  show CI s3.tps c
-                  by_cases hic : c0 = i
-                  · subst hic
-                    rw [List.getElem?_set_self (List.getElem?_eq_some_iff.1 hcomp).1] at hc
-                    cases hc
-                    rw [hl3]
-                    have hci1 : CI (cs.base.tps.set comp.self { ts1 with pend := ts1.pend - 1 }) comp :=
-                      ci_set_frame hci0 hts rfl (Or.inl hnself)
-                    have hS0 : ∀ y ∈ cs.base.tps.set comp.self { ts1 with pend := ts1.pend - 1 }, tpOK cs.base.clock y := by
-                      intro y hy
-                      rcases List.mem_or_eq_of_mem_set hy with hy | hy
-                      · exact h.sinv.tpok y hy
-                      · subst hy
-                        have := h.sinv.tpok ts1 (List.mem_of_getElem? hts)
-                        simpa only [tpOK] using this
-                    have htp0 : (cs.base.tps.set comp.self { ts1 with pend := ts1.pend - 1 })[m]? = some tp := by
-                      rw [get_set_tp _ _ _ _ _ hts, if_neg hms]; exact htp
-                    refine ci_memberCb (x1 := { tp with st := .inCb, cbs := tp.cbs + 1, cbAt := cs.base.clock, by_ := t }) hci1 hnd hS0
-                      hmmem htp0 htpst ⟨rfl, rfl, rfl⟩ _ (Or.inr ⟨hp, nx, tn, { tn with st := .adding, by_ := t }, hnx, ?_, htnst, rfl, rfl, rfl, rfl, rfl⟩)
-                    rw [← hcomm, ← hset1, ← hset2]; exact htn
-                  · rw [List.getElem?_set_ne hic] at hc
-                    refine (other_frame (h.ci i c hc) (h.cself i c hc) ?_).1
-                    intro q hq
-                    have hq1 : q ≠ comp.self := by
-                      rcases hq with hq | hq
-                      · intro e; exact hsdis (e ▸ mem_allMembers hc hq)
-                      · rw [hq]; exact (self_ne_of_ne h.snodup hcomp hc hic).symm
-                    have hq2 : ∀ x ∈ comp.members, q ≠ x := by
-                      intro x hx
-                      rcases hq with hq | hq
-                      · intro e; exact members_disjoint h.nodup hcomp hc hic hx (e ▸ hq)
-                      · intro e; exact h.sdisj c (List.mem_of_getElem? hc) (hq ▸ e ▸ mem_allMembers hcomp hx)
-                    rw [hset3, get_set_tp _ _ _ _ _ htn, if_neg (hq2 nx hnxmem), hset2, get_set_tp _ _ _ _ _ hts1s, if_neg hq1,
-                        hset1, get_set_tp _ _ _ _ _ htp, if_neg (hq2 m hmmem)]
-                · intro i c hc
-                  show CS s3.tps c
-                  by_cases hic : c0 = i
-                  · subst hic
-                    rw [List.getElem?_set_self (List.getElem?_eq_some_iff.1 hcomp).1] at hc
-                    cases hc
-                    have hnxl : comp.completed + 1 < comp.members.length := (List.getElem?_eq_some_iff.1 hnx).1
-                    have hlook : s3.tps[comp.self]? = some { ts1 with pend := ts1.pend - 1 } := by
-                      rw [hset3, get_set_tp _ _ _ _ _ htn, if_neg (fun e => hnxs e.symm), hset2]
-                      exact List.getElem?_set_self (List.getElem?_eq_some_iff.1 hts1s).1
-                    refine ⟨hcs0.ne, _, hlook, a0, ae, ass, ?_, fun _ => ⟨hadded, hready⟩, ?_, ?_, ?_⟩
-                    · simp only []; omega
-                    · intro e; simp only [] at e; omega
-                    · intro _; exact a3 hlt
-                    · intro hcb; simp only [] at hcb; exact absurd (a3 hlt).1 hcb
-                  · rw [List.getElem?_set_ne hic] at hc
-                    refine (other_frame (h.ci i c hc) (h.cself i c hc) ?_).2
-                    intro q hq
-                    have hq1 : q ≠ comp.self := by
-                      rcases hq with hq | hq
-                      · intro e; exact hsdis (e ▸ mem_allMembers hc hq)
-                      · rw [hq]; exact (self_ne_of_ne h.snodup hcomp hc hic).symm
-                    have hq2 : ∀ x ∈ comp.members, q ≠ x := by
-                      intro x hx
-                      rcases hq with hq | hq
-                      · intro e; exact members_disjoint h.nodup hcomp hc hic hx (e ▸ hq)
-                      · intro e; exact h.sdisj c (List.mem_of_getElem? hc) (hq ▸ e ▸ mem_allMembers hcomp hx)
-                    rw [hset3, get_set_tp _ _ _ _ _ htn, if_neg (hq2 nx hnxmem), hset2, get_set_tp _ _ _ _ _ hts1s, if_neg hq1,
-                        hset1, get_set_tp _ _ _ _ _ htp, if_neg (hq2 m hmmem)]
+              | some s3 => rw [hs3] at hs; cases hs; exact Or.inl ⟨hp, nx, s3, hnx, hs3, rfl⟩
             · cases hs
-          · rename_i hp
-            -- the last member: the compound terminates, nested in this callback
-            cases hs
-            have hn : comp.completed + 1 = comp.members.length := by omega
-            have hp1 : ts1.pend = 1 := by omega
-            have hset2 : s2.tps = s1.tps.set comp.self { ts1 with pend := 0, st := .inCbN, cbs := ts1.cbs + 1, cbAt := s1.clock, by_ := t } := by
-              rcases hbr with ⟨_, _, _, _, e⟩ | ⟨hno, _⟩
-              · exact e
-              · exact absurd ⟨hready, hp1, by omega, by omega⟩ hno
-            have hl2 : s2.tps = (cs.base.tps.set comp.self { ts1 with pend := 0, st := .inCbN, cbs := ts1.cbs + 1, cbAt := s1.clock, by_ := t }).set m
-                { tp with st := .inCb, cbs := tp.cbs + 1, cbAt := cs.base.clock, by_ := t } := by
-              rw [hset2, hset1, hcomm]
-            refine ⟨hi2, hS2,
-                    by show (allMembers (cs.comps.set c0 _)).Nodup; rw [allMembers_set hcomp]; exact h.nodup; rfl,
-                    by show (allSelfs (cs.comps.set c0 _)).Nodup; rw [allSelfs_set hcomp]; exact h.snodup; rfl, ?_, ?_, ?_⟩
-            · intro x hx
-              show x.self ∉ allMembers (cs.comps.set c0 _)
-              rw [allMembers_set hcomp]
-              · rcases mem_set_comp hcomp hx with rfl | hx
-                · exact hsdis
-                · exact h.sdisj x hx
-              · rfl
-            · intro i c hc
-              show CI s2.tps c
-              by_cases hic : c0 = i
-              · subst hic
-                rw [List.getElem?_set_self (List.getElem?_eq_some_iff.1 hcomp).1] at hc
-                cases hc
-                rw [hl2]
-                have hci1 : CI (cs.base.tps.set comp.self { ts1 with pend := 0, st := .inCbN, cbs := ts1.cbs + 1, cbAt := s1.clock, by_ := t }) comp :=
-                  ci_set_frame hci0 hts rfl (Or.inl hnself)
-                have hlookF : s2.tps[comp.self]? = some { ts1 with pend := 0, st := .inCbN, cbs := ts1.cbs + 1, cbAt := s1.clock, by_ := t } := by
-                  rw [hset2]; exact List.getElem?_set_self (List.getElem?_eq_some_iff.1 hts1s).1
-                have hS0 : ∀ y ∈ cs.base.tps.set comp.self { ts1 with pend := 0, st := .inCbN, cbs := ts1.cbs + 1, cbAt := s1.clock, by_ := t },
-                    tpOK s2.clock y := by
-                  intro y hy
-                  rcases List.mem_or_eq_of_mem_set hy with hy | hy
-                  · exact tpOK_mono (h.sinv.tpok y hy) (by omega)
-                  · subst hy; exact hS2.tpok _ (List.mem_of_getElem? hlookF)
-                have htp0 : (cs.base.tps.set comp.self { ts1 with pend := 0, st := .inCbN, cbs := ts1.cbs + 1, cbAt := s1.clock, by_ := t })[m]? = some tp := by
-                  rw [get_set_tp _ _ _ _ _ hts, if_neg hms]; exact htp
-                exact ci_memberCb (x1 := { tp with st := .inCb, cbs := tp.cbs + 1, cbAt := cs.base.clock, by_ := t }) hci1 hnd hS0
-                  hmmem htp0 htpst ⟨rfl, rfl, rfl⟩ _ (Or.inl ⟨by omega, rfl⟩)
-              · rw [List.getElem?_set_ne hic] at hc
-                refine (other_frame (h.ci i c hc) (h.cself i c hc) ?_).1
-                intro q hq
-                have hq1 : q ≠ comp.self := by
-                  rcases hq with hq | hq
-                  · intro e; exact hsdis (e ▸ mem_allMembers hc hq)
-                  · rw [hq]; exact (self_ne_of_ne h.snodup hcomp hc hic).symm
-                have hq2 : ∀ x ∈ comp.members, q ≠ x := by
-                  intro x hx
-                  rcases hq with hq | hq
-                  · intro e; exact members_disjoint h.nodup hcomp hc hic hx (e ▸ hq)
-                  · intro e; exact h.sdisj c (List.mem_of_getElem? hc) (hq ▸ e ▸ mem_allMembers hcomp hx)
-                rw [hset2, get_set_tp _ _ _ _ _ hts1s, if_neg hq1, hset1, get_set_tp _ _ _ _ _ htp, if_neg (hq2 m hmmem)]
-            · intro i c hc
-              show CS s2.tps c
-              by_cases hic : c0 = i
-              · subst hic
-                rw [List.getElem?_set_self (List.getElem?_eq_some_iff.1 hcomp).1] at hc
-                cases hc
-                have hlookF : s2.tps[comp.self]? = some { ts1 with pend := 0, st := .inCbN, cbs := ts1.cbs + 1, cbAt := s1.clock, by_ := t } := by
-                  rw [hset2]; exact List.getElem?_set_self (List.getElem?_eq_some_iff.1 hts1s).1
-                refine ⟨hcs0.ne, _, hlookF, a0, ae, Or.inr (Or.inr (Or.inr (Or.inl rfl))), ?_, ?_, fun _ => Or.inl rfl, ?_, ?_⟩
-                · simp only []; omega
-                · intro e; simp only [] at e; omega
-                · intro e; simp only [] at e; omega
-                · intro _ ml tl hml htl
-                  simp only [] at hml
-                  have hidx : comp.members.length - 1 = kk := by omega
-                  rw [hidx, hk] at hml; cases hml
-                  rw [hset2, get_set_tp _ _ _ _ _ hts1s, if_neg hms, hset1,
-                      List.getElem?_set_self (List.getElem?_eq_some_iff.1 htp).1] at htl
-                  cases htl
-                  simp only []
-                  omega
-              · rw [List.getElem?_set_ne hic] at hc
-                refine (other_frame (h.ci i c hc) (h.cself i c hc) ?_).2
-                intro q hq
-                have hq1 : q ≠ comp.self := by
-                  rcases hq with hq | hq
-                  · intro e; exact hsdis (e ▸ mem_allMembers hc hq)
-                  · rw [hq]; exact (self_ne_of_ne h.snodup hcomp hc hic).symm
-                have hq2 : ∀ x ∈ comp.members, q ≠ x := by
-                  intro x hx
-                  rcases hq with hq | hq
-                  · intro e; exact members_disjoint h.nodup hcomp hc hic hx (e ▸ hq)
-                  · intro e; exact h.sdisj c (List.mem_of_getElem? hc) (hq ▸ e ▸ mem_allMembers hcomp hx)
-                rw [hset2, get_set_tp _ _ _ _ _ hts1s, if_neg hq1, hset1, get_set_tp _ _ _ _ _ htp, if_neg (hq2 m hmmem)]
+          · rename_i hp; cases hs; exact Or.inr ⟨hp, rfl⟩
         · cases hs
+      · cases hs
+    · cases hs
+  · cases hs
+
+theorem gi_compCb {cs cs' : CSt} {t p c : Nat} (h : GI cs) (hs : cstep? cs (.compCb t p c) = some cs') : GI cs' := by
+  simp only [cstep?] at hs
+  split at hs
+  · rename_i par ch hpar hch
+    split at hs
+    · rename_i hg
+      obtain ⟨hk, hhead, _⟩ := hg
+      split at hs
+      · rename_i s2 hs2
+        -- the nested compound's descriptor is on top of the thread's nested stack: state inCbN
+        obtain ⟨l, hl, hq⟩ : ∃ l, cs.base.nests[t]? = some l ∧ ch.self ∈ l := by
+          cases hn : cs.base.nests[t]? with
+          | none => rw [hn] at hhead; simp at hhead
+          | some l =>
+            rw [hn] at hhead
+            cases l with
+            | nil => simp at hhead
+            | cons a r => simp at hhead; subst hhead; exact ⟨_, rfl, List.mem_cons_self⟩
+        obtain ⟨tp, htp, htpst, _⟩ := h.inv.nFwd t l ch.self hl hq
+        have hok := h.sinv.tpok tp (List.mem_of_getElem? htp)
+        simp only [tpOK, htpst] at hok
+        refine gi_advance (x1 := tp) (s1 := cs.base) h hpar hk htp (by rw [htpst]; simp) ⟨Or.inr htpst, rfl, rfl⟩
+          (set_same htp).symm h.inv h.sinv (Nat.le_refl _) ⟨by omega, by omega⟩
+          (fun i c' _ hc' => ⟨h.ci i c' hc', h.cself i c' hc'⟩) hs2 cs' ?_
+        split at hs
+        · rename_i hp
+          split at hs
+          · rename_i nx hnx
+            cases hs3 : step? s2 (.addCall t nx) with
+            | none => rw [hs3] at hs; cases hs
+            | some s3 => rw [hs3] at hs; cases hs; exact Or.inl ⟨hp, nx, s3, hnx, hs3, rfl⟩
+          · cases hs
+        · rename_i hp; cases hs; exact Or.inr ⟨hp, rfl⟩
       · cases hs
     · cases hs
   · cases hs
@@ -348,111 +498,9 @@ theorem gi_cstep {cs cs' : CSt} {tr : CTr} (h : GI cs) (hs : cstep? cs tr = some
       | none => rw [hst] at hs; cases hs
       | some s' => rw [hst] at hs; cases hs; exact gi_ctx h ha hst
     · cases hs
-  | startup t c0 =>
-    simp only [cstep?] at hs
-    split at hs
-    · rename_i comp hcomp
-      split at hs
-      · rename_i m0 hm0
-        split at hs
-        · rename_i hsub
-          split at hs
-          · rename_i s1 hs1
-            cases hst : step? s1 (.startupAdd t m0) with
-            | none => rw [hst] at hs; cases hs
-            | some s' =>
-              rw [hst] at hs; cases hs
-              obtain ⟨q, ts, hsu, hts, htsst, hset1, _⟩ := startupReady_eff hs1
-              have hq : q = comp.self := by rw [hsub] at hsu; cases hsu; rfl
-              subst hq
-              obtain ⟨tp, htp1, htps, hset⟩ := startupAdd_eff hst
-              have hi1 := inv_step h.inv hs1
-              have hS1 := sinv_step h.inv h.sinv hs1
-              have h0 := head?_get0 hm0
-              have hm0mem : m0 ∈ comp.members := List.mem_of_getElem? h0
-              have hsdis : comp.self ∉ allMembers cs.comps := h.sdisj comp (List.mem_of_getElem? hcomp)
-              have hsm0 : m0 ≠ comp.self := fun e => hsdis (e ▸ mem_allMembers hcomp hm0mem)
-              have htp : cs.base.tps[m0]? = some tp := by
-                rw [hset1, get_set_tp _ _ _ _ _ hts, if_neg hsm0] at htp1; exact htp1
-              have hci0 := h.ci c0 comp hcomp
-              have hcs0 := h.cself c0 comp hcomp
-              have hnself : comp.self ∉ comp.members := fun hm => hsdis (mem_allMembers hcomp hm)
-              refine ⟨inv_step hi1 hst, sinv_step hi1 hS1 hst,
-                      by show (allMembers (cs.comps.set c0 _)).Nodup; rw [allMembers_set hcomp]; exact h.nodup; rfl,
-                      by show (allSelfs (cs.comps.set c0 _)).Nodup; rw [allSelfs_set hcomp]; exact h.snodup; rfl, ?_, ?_, ?_⟩
-              · intro x hx
-                show x.self ∉ allMembers (cs.comps.set c0 _)
-                rw [allMembers_set hcomp]
-                · rcases mem_set_comp hcomp hx with rfl | hx
-                  · exact hsdis
-                  · exact h.sdisj x hx
-                · rfl
-              · intro i c hc
-                show CI s'.tps c
-                by_cases hic : c0 = i
-                · subst hic
-                  rw [List.getElem?_set_self (List.getElem?_eq_some_iff.1 hcomp).1] at hc
-                  cases hc
-                  rw [hset, hset1]
-                  have hci1 : CI (cs.base.tps.set comp.self { ts with ready := true, pend := ts.pend + comp.members.length }) comp :=
-                    ci_set_frame hci0 hts rfl (Or.inl hnself)
-                  exact ci_startup hci1 (nodup_members h.nodup hcomp) h0 (by rw [← hset1]; exact htp1) htps ⟨rfl, rfl, rfl, rfl⟩
-                · rw [List.getElem?_set_ne hic] at hc
-                  refine (other_frame (h.ci i c hc) (h.cself i c hc) ?_).1
-                  intro q hq
-                  have hq1 : q ≠ comp.self := by
-                    rcases hq with hq | hq
-                    · intro e; exact hsdis (e ▸ mem_allMembers hc hq)
-                    · rw [hq]; exact (self_ne_of_ne h.snodup hcomp hc hic).symm
-                  have hq2 : q ≠ m0 := by
-                    rcases hq with hq | hq
-                    · intro e; exact members_disjoint h.nodup hcomp hc hic hm0mem (e ▸ hq)
-                    · intro e; exact h.sdisj c (List.mem_of_getElem? hc) (hq ▸ e ▸ mem_allMembers hcomp hm0mem)
-                  rw [hset, get_set_tp _ _ _ _ _ htp1, if_neg hq2, hset1, get_set_tp _ _ _ _ _ hts, if_neg hq1]
-              · intro i c hc
-                show CS s'.tps c
-                by_cases hic : c0 = i
-                · subst hic
-                  rw [List.getElem?_set_self (List.getElem?_eq_some_iff.1 hcomp).1] at hc
-                  cases hc
-                  obtain ⟨ts0, hts0, a0, ae, ass, ap, a1, a2, a3, a4⟩ := hcs0.ex
-                  rw [hts] at hts0; cases hts0
-                  -- before the startup hook: completed = 0 and pending = 0
-                  obtain ⟨y, hy, _, _, _, b4⟩ := hci0.mem 0 m0 h0
-                  rw [htp] at hy; cases hy
-                  have hc0 : comp.completed = 0 := by
-                    rcases Nat.eq_zero_or_pos comp.completed with e | e
-                    · exact e
-                    · obtain ⟨w, hw, _, b2, _, _⟩ := hci0.mem 0 m0 h0
-                      rw [htp] at hw; cases hw
-                      rcases b2 e with e' | e' <;> rw [htps] at e' <;> cases e'
-                  have hp0 : comp.pending = 0 := ((b4 hc0.symm).2.1 htps).2
-                  have hlook : s'.tps[comp.self]? = some { ts with ready := true, pend := ts.pend + comp.members.length } := by
-                    rw [hset, get_set_tp _ _ _ _ _ htp1, if_neg (fun e => hsm0 e.symm), hset1]
-                    exact List.getElem?_set_self (List.getElem?_eq_some_iff.1 hts).1
-                  refine ⟨hcs0.ne, _, hlook, a0, ae, Or.inr (Or.inr (Or.inl htsst)), ?_, fun _ => ⟨htsst, rfl⟩, ?_, ?_, ?_⟩
-                  · simp only []; rw [hp0] at ap; push_cast; omega
-                  · intro e; simp only [] at e; have := hcs0.ne; omega
-                  · intro _; exact a3 (by have := hcs0.ne; omega)
-                  · intro hcb; simp only [] at hcb
-                    exact absurd (a3 (by have := hcs0.ne; omega)).1 hcb
-                · rw [List.getElem?_set_ne hic] at hc
-                  refine (other_frame (h.ci i c hc) (h.cself i c hc) ?_).2
-                  intro q hq
-                  have hq1 : q ≠ comp.self := by
-                    rcases hq with hq | hq
-                    · intro e; exact hsdis (e ▸ mem_allMembers hc hq)
-                    · rw [hq]; exact (self_ne_of_ne h.snodup hcomp hc hic).symm
-                  have hq2 : q ≠ m0 := by
-                    rcases hq with hq | hq
-                    · intro e; exact members_disjoint h.nodup hcomp hc hic hm0mem (e ▸ hq)
-                    · intro e; exact h.sdisj c (List.mem_of_getElem? hc) (hq ▸ e ▸ mem_allMembers hcomp hm0mem)
-                  rw [hset, get_set_tp _ _ _ _ _ htp1, if_neg hq2, hset1, get_set_tp _ _ _ _ _ hts, if_neg hq1]
-          · cases hs
-        · cases hs
-      · cases hs
-    · cases hs
+  | startup t c0 => exact gi_startup h hs
   | memberCb t c0 m => exact gi_memberCb h hs
+  | compCb t p c => exact gi_compCb h hs
 
 theorem gi_cstep' {cs : CSt} (tr : CTr) (h : GI cs) : GI (cstep cs tr) := by
   unfold cstep
@@ -468,7 +516,7 @@ theorem gi_init (k : Nat) (tps : List Tp) (comps : List Comp) (hwf : WF tps comp
     obtain ⟨h1, h2, h3, _, _, h6⟩ := hc c (List.mem_of_getElem? hci)
     refine ⟨by omega, ?_, ?_, ?_⟩
     · intro j m hm
-      obtain ⟨tp, htp, he, _⟩ := h6 m (List.mem_of_getElem? hm)
+      obtain ⟨tp, htp, he⟩ := h6 m (List.mem_of_getElem? hm)
       have hfr := hfresh m tp htp
       refine ⟨tp, htp, he, ?_, fun _ => hfr.1, ?_⟩
       · intro hlt; omega
@@ -478,12 +526,14 @@ theorem gi_init (k : Nat) (tps : List Tp) (comps : List Comp) (hwf : WF tps comp
     · intro j m m' tp tp' _ _ _ htp' hne
       exact absurd (hfresh m' tp' htp').2.2.2.2.1 hne
   · intro i c hci
-    obtain ⟨h1, h2, h3, _, ⟨ts, hts, hte, ht0⟩, _⟩ := hc c (List.mem_of_getElem? hci)
+    obtain ⟨h1, h2, h3, _, ⟨ts, hts, hte, ht0⟩, h6⟩ := hc c (List.mem_of_getElem? hci)
     obtain ⟨f1, f2, f3, f4, f5, f6, f7, f8, f9, f10, f11, f12⟩ := hfresh c.self ts hts
-    refine ⟨h3, ts, hts, ht0, hte, Or.inl f1, by rw [f12, h2]; rfl, ?_, ?_, fun _ => ⟨f8, f4⟩, ?_⟩
+    refine ⟨h3, ts, hts, ht0, hte, Or.inl f1, by rw [f12, h2]; rfl, ?_, ?_, fun _ => ⟨f8, f4⟩, ?_, ?_⟩
     · intro hp; rw [h2] at hp; exact absurd hp (by decide)
     · intro e; omega
     · intro hcb; exact absurd f8 hcb
+    · intro m tm _ htm hne
+      exact absurd (hfresh m tm htm).2.2.2.2.1 hne
 
 theorem gi_run (k : Nat) (tps : List Tp) (comps : List Comp) (hwf : WF tps comps) (trs : List CTr) :
     GI (crun k tps comps trs) := by
